@@ -14,6 +14,21 @@ P = {
          "Real replicas run thousands of generated edit/sync histories (incl. >1MB multi-version syncs, SQLite replicas, an exhaustive tiny core) against a harness chain server; after every action the stored state must equal replay(chain..base)+unsynced and at quiescence every replica must equal the independent replay of the stored versions. Held-on-observed, not a proof.",
          "Trusts the harness chain server and the harness' own JSON decoder/reference semantics (written from the docs); histories contain only operations valid in the issuing replica's state.",
          "DESIGN.md §5 C01"),
+ "C02": (True, "E2-schedule", "exploration",
+         "runtime monitor under a deterministic request-level scheduler (DFS-exhaustive / seeded random schedules) + wire-level lost-change oracle",
+         "2-4 real Replica::sync futures run under a cooperative scheduler that decides, request by request, which client's next server request proceeds: every interleaving of two racing syncs is enumerated (DFS) for dozens of prior histories, thousands of random 3-4-replica schedules (incl. multi-batch pending sets) are sampled; every sync must return Ok, the C01 chain-replay oracle must hold after quiescence, and no pushed version may contain an operation that had already strictly lost against a version delivered earlier in the same call.",
+         "Interleaving granularity = Server trait requests, each atomic against the harness chain. 'Already lost' asserted only where the rebase provably reaches and drops the operation.",
+         "DESIGN.md §5 C02"),
+ "C03": (True, "E1-history", "exploration",
+         "runtime monitor: rule-derived expectations + all-permutations order-independence over a causal scenario cube",
+         "Scenarios (common synced prefix, one of 13 concurrent suffix forms per replica, timestamps incl. ties, optional causally-later change) are run under every permutation of the sync order: pairs exhaustively, triples with a mandatory same-value stratum and seeded random; final states must equal the expectation derived from the documented rules alone (simple forms), be identical across orders (all forms), keep every unconflicted change, and let a causally later change override regardless of timestamp.",
+         "For equal timestamps with different values only 'one tied value survives, the same in every order' is demanded. Sync order = one permutation repeated to quiescence.",
+         "DESIGN.md §5 C03"),
+ "C04": (True, "E3-fault", "fault_enumeration",
+         "fault injection at every storage call and server request of a sync + replica-invariant and converged-result oracles against a fault-free run",
+         "For each generated history the target sync is re-run once per storage call x {error, process stop} and per server request x {fail before effect, effect then lost reply} (plus random sequences of up to 3 consecutive faults, a multi-batch stratum and a SQLite stratum with reopen): after each fault the stored data must satisfy the replica invariant, the next sync must succeed within two attempts, and quiescence must reach the same state as the uninterrupted run.",
+         "Process stop = future dropped at a storage call (SQLite: replica dropped and directory reopened); power loss not reachable. Liveness in bounded form (2 attempts).",
+         "DESIGN.md §5 C04"),
  "C05": (True, "E1-history", "exploration",
          "runtime monitor: one-at-a-time reference model + error injection at every storage call of a commit",
          "Every batch of <=3 operations over a 13-operation alphabet on 4 prior states (exhaustively on in-memory storage; SQLite sampled in quick, full in thorough) plus random batches up to 30 operations is committed through the real Replica and compared with the documented one-at-a-time semantics, the expected unsynced list, the undo/operation counters and the replica invariant; an error injected at each storage call of the commit must leave no trace.",
